@@ -21,13 +21,15 @@ class ExpectError(Exception):
 
 
 class Ctx:
-    __slots__ = ("node", "parent", "ref", "pos")
+    __slots__ = ("node", "parent", "ref", "pos", "up", "virtual")
 
-    def __init__(self, node, parent, ref, pos):
+    def __init__(self, node, parent, ref, pos, up=None, virtual=None):
         self.node = node
         self.parent = parent
         self.ref = ref
         self.pos = pos
+        self.up = up              # the context of the parent node
+        self.virtual = virtual    # 'name': the node is a key/index value
 
     def __repr__(self):
         return "Ctx(%r @%r)" % (self.node, self.pos)
@@ -46,11 +48,12 @@ def children(ctx):
     if isinstance(node, VList):
         return list(node)
     if is_map(node):
-        return [Ctx(v, node, k, ctx.pos + (k,)) for k, v in node.items()]
+        return [Ctx(v, node, k, ctx.pos + (k,), ctx) for k, v in node.items()]
     if is_list(node):
-        return [Ctx(v, node, i, ctx.pos + (i,)) for i, v in enumerate(node)]
+        return [Ctx(v, node, i, ctx.pos + (i,), ctx)
+                for i, v in enumerate(node)]
     if is_set(node):
-        return [Ctx(m, node, m, ctx.pos + (m,)) for m in node]
+        return [Ctx(m, node, m, ctx.pos + (m,), ctx) for m in node]
     return []
 
 
@@ -137,8 +140,7 @@ def step(segs, i, ctx, tl=True):
         n = seg[1]
         if is_list(node):
             if -len(node) <= n < len(node):
-                kids = children(ctx)
-                return [kids[n]]
+                return [_addressed(children(ctx)[n], n)]
             return []
         if is_set(node):
             raise ExpectError("index into a set")
@@ -190,6 +192,14 @@ def step(segs, i, ctx, tl=True):
     raise Unspecified("segment kind %s" % kind)
 
 
+def _addressed(c, n):
+    """An element addressed by a negative index is held under that (equally
+    valid) reference: parent[ref] is node either way."""
+    if n < 0:
+        return Ctx(c.node, c.parent, n, c.pos, c.up)
+    return c
+
+
 def _key(segs, i, ctx, tl):
     text = segs[i][1]
     node = ctx.node
@@ -219,7 +229,7 @@ def _key(segs, i, ctx, tl):
             if str(n) != text.strip():
                 raise Unspecified("odd integer spelling")
             if -len(node) <= n < len(node):
-                return [children(ctx)[n]]
+                return [_addressed(children(ctx)[n], n)]
             return []
         if not tl:
             return []
@@ -331,7 +341,9 @@ def flat_ids(ctxs):
     and marked."""
     out = []
     for c in ctxs:
-        if isinstance(c.node, VList):
+        if c.virtual == "name":
+            out.append(("name", str(c.node)))
+        elif isinstance(c.node, VList):
             out.append(("v",) + tuple(id(x.node) for x in c.node))
         else:
             out.append(id(c.node))
